@@ -33,6 +33,9 @@ var causes = []struct {
 	// the drain of an accepted stop itself surfaces a transient error (a
 	// destination's Teardown fails): the pipeline was stopped deliberately and
 	// must not be restarted by recovery
+	// transient failures that are further apart than the retry window: the
+	// attempt budget is per window, so they must be recovered from indefinitely
+	{"spaced-transient-failures", "transient-spaced"},
 	{"user-stop-drain-error", "stopped"},
 	{"stop-all-drain-error", "stopped"},
 }
@@ -107,6 +110,25 @@ func gen(seed int64, tier string, idx int) *pipe.Scenario {
 		sc.Steps = []pipe.Step{{AtEvent: at, Op: "stopwait"}}
 	case "stop-all":
 		sc.Steps = []pipe.Step{{AtEvent: at, Op: "stopall"}, {AtEvent: 0, Op: "wait"}}
+	case "spaced-transient-failures":
+		// every session of the destination fails at its 60th record; the source is
+		// paced so that a session runs for >= 300 ms before that, while back-off plus
+		// window stay below 60 ms
+		sc.Topo.Sources = sc.Topo.Sources[:1]
+		sc.Records = []int{60*6 + 20}
+		sc.Topo.Sources[0].Src.Batches = []int{1}
+		sc.Topo.Sources[0].Src.PaceUs = 5000
+		sc.Topo.Sources[0].Procs = nil
+		sc.Topo.PipeProcs = nil
+		sc.Topo.Dests = sc.Topo.Dests[:1]
+		d0 = &sc.Topo.Dests[0]
+		d0.Procs = nil
+		d0.Dst = rig.DstScript{Seed: g.R.Uint64(), Shape: map[int]string{60: "streamerr"}, ShapeSess: 0}
+		sc.RecMinDelayUs = 2000
+		sc.RecMaxDelayUs = 8000
+		sc.RecMaxRetries = int64(1 + g.R.Intn(2))
+		sc.RecWindowUs = 20000
+		sc.PersistDelayUs = 200
 	case "user-stop-drain-error":
 		d0.Dst.CallErr = map[string]string{"Teardown#1": "vf transient teardown error"}
 		sc.Steps = []pipe.Step{{AtEvent: at, Op: "stopwait"}}
@@ -304,8 +326,33 @@ func judge(out *pipe.Outcome, ix *pipe.Index) pipe.Verdict {
 	}
 	// (B) bounded number of automatic restarts
 	if sc.RecMaxRetries >= 0 && restarts > sc.RecMaxRetries {
-		// attempts are only decremented after duration+window, our runs are shorter than the window
-		add("more-restarts-than-max-retries", fmt.Sprintf("%d automatic restarts with MaxRetries=%d inside the window", restarts, sc.RecMaxRetries))
+		// An attempt is forgotten duration+window after it was made. In every
+		// scenario but one the window (120 s) is longer than the run, so all
+		// restarts count; with a short window only the restarts whose Recovering
+		// status writes lie within ONE window of each other do.
+		window := int64(sc.RecWindowUs) * 1000
+		var recs []int64
+		for _, h := range hist {
+			if h.status == "Recovering" {
+				recs = append(recs, h.t)
+			}
+		}
+		worst := int64(0)
+		for a := range recs {
+			n := int64(0)
+			for b := a; b < len(recs) && recs[b]-recs[a] <= window; b++ {
+				n++
+			}
+			if n > worst {
+				worst = n
+			}
+		}
+		if len(recs) == 0 {
+			worst = restarts
+		}
+		if worst > sc.RecMaxRetries {
+			add("more-restarts-than-max-retries", fmt.Sprintf("%d automatic restarts (%d of them within one retry window of %dus) with MaxRetries=%d", restarts, worst, sc.RecWindowUs, sc.RecMaxRetries))
+		}
 	}
 
 	switch class {
@@ -366,6 +413,34 @@ func judge(out *pipe.Outcome, ix *pipe.Index) pipe.Verdict {
 		v.Stats["transient_causes_judged"]++
 		if restarts == 0 {
 			add("transient-cause-not-recovered", fmt.Sprintf("transient cause %q: no automatic restart (status history %v, final %s)", cause, seq, final))
+		}
+	case "transient-spaced":
+		// failures (Recovering status writes) and the spacing the history shows
+		var fails []int64
+		for _, h := range hist {
+			if h.status == "Recovering" {
+				fails = append(fails, h.t)
+			}
+		}
+		if len(fails) < int(sc.RecMaxRetries)+2 && final != "Degraded" {
+			v.Inconclusive = fmt.Sprintf("only %d failures manifested", len(fails))
+			break
+		}
+		budget := int64(sc.RecWindowUs+sc.RecMaxDelayUs) * 1000
+		spaced := true
+		for k := 1; k < len(fails); k++ {
+			if fails[k]-fails[k-1] < 5*budget {
+				spaced = false
+			}
+		}
+		v.Stats["spaced_failure_runs_judged"]++
+		v.Stats["spaced_failures_observed"] += int64(len(fails))
+		if final == "Degraded" {
+			if spaced {
+				add("spaced-transient-failures-exhausted-retries", fmt.Sprintf("%d transient failures, each more than 5x (window %dus + max back-off %dus) after the previous one, MaxRetries=%d: the pipeline degraded (%v)", len(fails), sc.RecWindowUs, sc.RecMaxDelayUs, sc.RecMaxRetries, seq))
+			} else {
+				v.Inconclusive = "failures were not spaced beyond the window on this machine"
+			}
 		}
 	case "either":
 		if manifested {
